@@ -226,8 +226,12 @@ func (lex *Lexer) Lex() *token.Token {
 		lex.te = (lex.p)
 		(lex.p)--
 		{
-			// ok (num-classify): an integer only if it parses as one
-			_, err := strconv.ParseInt(string(lex.data[lex.ts:lex.te]), 10, 0)
+			// ok (num-classify, num-spec): an integer only if its digits, in its radix, parse as one
+			base := 10
+			if lex.data[lex.ts] == '0' {
+				base = 8
+			}
+			_, err := strconv.ParseInt(strings.Replace(string(lex.data[lex.ts:lex.te]), "_", "", -1), base, 0)
 			if err == nil {
 				lex.setTokenPosition(tkn)
 				tok = token.T_LNUMBER
